@@ -74,3 +74,50 @@ Theorem C13_mess_full_scan_when_threshold_not_reached :
     mess_ratio FO K O t thr = bank_sum FO K (fold_left (fun b c => bank_feed FO K O b (mk_char O c)) (t ++ [10]) bank_init).
 Proof. intros. unfold mess_ratio. apply scan_no_exit. assumption. Qed.
 Print Assumptions C13_mess_full_scan_when_threshold_not_reached.
+
+From Model Require Import Pipeline Utf Codecs.
+From Proofs Require Import DetectSound UtfFacts CodecFacts PipelineFacts UnicodeForms.
+
+(* "identical for the same text presented in any encoding able to represent it (with or without BOM)", across
+   DIFFERENT inputs and window settings, for every oracle bundle: two accepted candidates that strictly decode
+   (after their own mark) to the same text expose that text and carry the same chaos *)
+Theorem C13_same_text_same_chaos_across_inputs :
+  forall FO (R : oracles FO), FloatLaws FO ->
+    (forall e l t, sdecode FO R e l = Some t -> len t <= len l) ->
+  forall b1 b2 cfg1 cfg2 inc1 exc1 inc2 exc2 e1 e2 m1 m2 x1 x2 t,
+    len b1 <= chunk_size FO cfg1 * steps FO cfg1 -> len b1 <= TOO_BIG_SEQUENCE ->
+    len b2 <= chunk_size FO cfg2 * steps FO cfg2 -> len b2 <= TOO_BIG_SEQUENCE ->
+    threshold FO cfg1 = threshold FO cfg2 ->
+    sdecode FO R e1 (strip b1 e1) = Some t -> sdecode FO R e2 (strip b2 e2) = Some t ->
+    probe FO R (make_ctx FO R b1 cfg1 inc1 exc1) e1 = Ok (Accept FO m1 x1) ->
+    probe FO R (make_ctx FO R b2 cfg2 inc2 exc2) e2 = Ok (Accept FO m2 x2) ->
+    m_text FO m1 = Some t /\ m_text FO m2 = Some t /\ m_chaos FO m1 = m_chaos FO m2.
+Proof. exact same_text_same_chaos_across_inputs. Qed.
+Print Assumptions C13_same_text_same_chaos_across_inputs.
+
+(* with the Unicode codecs inside the model (Model/Utf.v, Codecs.v) the hypothesis "decode to the same text" is a
+   theorem: a text as UTF-8, UTF-8 with signature, UTF-16LE with BOM or UTF-16BE with BOM *)
+Theorem C13_unicode_forms_same_chaos :
+  forall (B : base_oracles), (forall e l t, b_sdecode B e l = Some t -> len t <= len l) ->
+  forall t b1 e1 b2 e2 cfg1 cfg2 inc1 exc1 inc2 exc2 m1 m2 x1 x2,
+    Forall scalar t -> unicode_form t b1 e1 -> unicode_form t b2 e2 ->
+    len b1 <= chunk_size F32ops cfg1 * steps F32ops cfg1 -> len b1 <= TOO_BIG_SEQUENCE ->
+    len b2 <= chunk_size F32ops cfg2 * steps F32ops cfg2 -> len b2 <= TOO_BIG_SEQUENCE ->
+    threshold F32ops cfg1 = threshold F32ops cfg2 ->
+    probe F32ops (pipeline_dec B) (make_ctx F32ops (pipeline_dec B) b1 cfg1 inc1 exc1) e1 = Ok (Accept F32ops m1 x1) ->
+    probe F32ops (pipeline_dec B) (make_ctx F32ops (pipeline_dec B) b2 cfg2 inc2 exc2) e2 = Ok (Accept F32ops m2 x2) ->
+    m_text F32ops m1 = Some t /\ m_text F32ops m2 = Some t /\ m_chaos F32ops m1 = m_chaos F32ops m2.
+Proof. exact unicode_forms_same_chaos. Qed.
+Print Assumptions C13_unicode_forms_same_chaos.
+
+(* the chaos-function theorem for the pipeline: DecodeLen is proved of every modelled codec and stays a
+   hypothesis about the CJK oracle only *)
+Theorem C13_chaos_function_pipeline :
+  forall (B : base_oracles) b cfg inc exc e m x,
+    (forall e l t, b_sdecode B e l = Some t -> len t <= len l) ->
+    len b <= chunk_size F32ops cfg * steps F32ops cfg -> len b <= TOO_BIG_SEQUENCE ->
+    probe F32ops (pipeline_dec B) (make_ctx F32ops (pipeline_dec B) b cfg inc exc) e = Ok (Accept F32ops m x) ->
+    exists t, m_text F32ops m = Some t /\ m_chaos F32ops m = chaos_fn F32ops (pipeline_dec B) t (threshold F32ops cfg)
+              /\ fge F32ops (chaos_fn F32ops (pipeline_dec B) t (threshold F32ops cfg)) (threshold F32ops cfg) = false.
+Proof. exact pipeline_dec_chaos_function. Qed.
+Print Assumptions C13_chaos_function_pipeline.
